@@ -106,11 +106,31 @@ class SDataset:
 
     def __getitem__(self, k):
         self.owner._alive()
+        if isinstance(k, list):                 # dataset[[i, j, ..]]: the rows at these positions, as h5py gives them
+            import numpy
+
+            return numpy.asarray(self.value)[k]
         return self.value
 
     def __setitem__(self, k, v):
         self.owner._writable()
         self.value = v
+
+    def asstr(self):
+        """view of a text dataset as str (h5py: Dataset.asstr()[()] gives a plain str for a scalar dataset)"""
+        import numpy
+
+        ds = self
+
+        class _AsStr:
+            def __getitem__(self, k):
+                ds.owner._alive()
+                v = numpy.asarray(ds.value)
+                if v.dtype.kind == "S":
+                    v = numpy.char.decode(v)
+                return str(v[()]) if v.ndim == 0 else v.astype(str)[k]
+
+        return _AsStr()
 
     def _clone(self, owner):
         d = SDataset(owner, self.value)
@@ -171,6 +191,10 @@ class SGroup:
     def create_group(self, name, track_order=None):
         self.owner._writable()
         name = _text(name)
+        if isinstance(name, str) and "/" in name.strip("/"):
+            # a path: intermediate groups are created as needed, the group itself sits in the innermost one
+            ps = _parts(name)
+            return self._walk(ps[:-1], create=True).create_group(ps[-1], track_order=track_order)
         if self._find1(name) is not None:
             raise ValueError("Unable to create group (name already exists)")
         g = SGroup(self.owner)
